@@ -115,6 +115,12 @@ func (t *tr2) assignedOutside(n ast.Node, exclude ...types.Object) []types.Objec
 			}
 		case *ast.IncDecStmt:
 			add(x.X)
+		case *ast.SendStmt:
+			add(x.Chan)
+		case *ast.UnaryExpr:
+			if x.Op == token.ARROW {
+				add(x.X)
+			}
 		case *ast.RangeStmt:
 			if x.Tok == token.ASSIGN {
 				if x.Key != nil {
@@ -134,7 +140,10 @@ func (t *tr2) assignedOutside(n ast.Node, exclude ...types.Object) []types.Objec
 				}
 			}
 		case *ast.CallExpr:
-			if tgt, m, _, ok := t.atomicCall(x); ok && (m == "Add" || m == "Store") {
+			if tgt, m, _, ok := t.atomicCall(x); ok && (m == "Add" || m == "Store" || m == "CompareAndSwap") {
+				add(tgt)
+			}
+			if tgt, m, ok := t.atomicPtrCall(x); ok && m == "Store" {
 				add(tgt)
 			}
 			if sx, _, f := t.extFieldOf(x.Fun); f != nil && f.ext == "call" {
@@ -524,6 +533,22 @@ func (t *tr2) stmt(s ast.Stmt, c *fctx, rest func() string) string {
 		return t.rangeStmt(x, c, rest)
 	case *ast.ForStmt:
 		return t.forStmt(x, c, rest)
+	case *ast.SendStmt:
+		// ch <- v outside a select: a blocking send; on a full channel it would block: GPanic
+		var bs []bind
+		if _, ok := chanElem(t.info.TypeOf(x.Chan)); !ok {
+			t.fail(x, "send on a channel outside the subset (chan of integers, booleans or struct values)")
+			return rest()
+		}
+		ch := t.expr(x.Chan, &bs)
+		e, _ := chanElem(t.info.TypeOf(x.Chan))
+		v := t.exprAs(x.Value, e, &bs)
+		tmp := t.freshTmp()
+		bs = append(bs, bind{pat: tmp, rhs: "(ch_send " + ch + " " + v + ")"})
+		t.assign(x.Chan, tmp, &bs)
+		return wrapBinds(bs, rest())
+	case *ast.SelectStmt:
+		return t.selectStmt(x, c, rest)
 	}
 	t.fail(s, "unsupported statement %T", s)
 	return rest()
@@ -939,4 +964,118 @@ func (t *tr2) forStmt(x *ast.ForStmt, c *fctx, rest func() string) string {
 	t.loops = t.loops[:len(t.loops)-1]
 	loop := "(count_loop (R:=" + c.rty + ") (fun " + ident(iv.Name) + " " + funPat(pat) + " =>\n " + body + ") " + lo + " " + hi + " " + val + ")"
 	return wrapBinds(pre, "(loop_k "+loop+"\n (fun "+funPat(pat)+" =>\n "+rest()+")\n (fun r_ => "+c.ret("r_")+"))")
+}
+
+// openChanRecv: `<-x.f` (result unused) on a channel field registered with registerOpenChan2.
+func (t *tr2) openChanRecv(s ast.Stmt) bool {
+	es, ok := s.(*ast.ExprStmt)
+	if !ok {
+		return false
+	}
+	u, ok := es.X.(*ast.UnaryExpr)
+	if !ok || u.Op != token.ARROW {
+		return false
+	}
+	sel, ok := u.X.(*ast.SelectorExpr)
+	if !ok {
+		return false
+	}
+	xt := t.info.TypeOf(sel.X)
+	nn, _, isS := namedStruct(xt)
+	if !isS {
+		if pn, isP := ptrStruct(xt); isP {
+			nn, isS = pn, true
+		}
+	}
+	return isS && nn.Obj().Pkg() != nil && openChans2[nn.Obj().Pkg().Path()+"."+nn.Obj().Name()+"."+sel.Sel.Name]
+}
+
+// selectStmt: select over ONE live communication (receive cases on registered open channels are
+// never ready and dropped):
+//
+//	select { case ch <- v: A  default: B }   non-blocking send: room ? (push; A) : B
+//	select { case <-ch: A     default: B }   non-blocking receive, value discarded
+//	select { case ch <- v: A }               blocking send (GPanic when full), then A
+//
+// The channel and the value are evaluated once, on entry (as Go does).
+func (t *tr2) selectStmt(x *ast.SelectStmt, c *fctx, rest func() string) string {
+	var comm, deflt *ast.CommClause
+	for _, cl := range x.Body.List {
+		cc := cl.(*ast.CommClause)
+		if cc.Comm == nil {
+			deflt = cc
+			continue
+		}
+		if t.openChanRecv(cc.Comm) {
+			if len(cc.Body) != 0 {
+				t.fail(cc, "a receive case on an open signalling channel must have an empty body")
+			}
+			continue
+		}
+		if comm != nil {
+			t.fail(x, "select over more than one live communication unsupported")
+			return rest()
+		}
+		comm = cc
+	}
+	if comm == nil {
+		t.fail(x, "select without a send / receive case unsupported")
+		return rest()
+	}
+	join := !escapesIn(x.Body, true)
+	var pat, val string
+	end := rest
+	if join {
+		pat, val = tuple(t.assignedOutside(x.Body))
+		end = func() string { return "(GOk " + val + ")" }
+	}
+	sc := *c
+	sc.brkK = end // break inside a select continues after it
+	c = &sc
+	finish := func(body string) string {
+		if join {
+			return "(gbind " + body + " (fun " + funPat(pat) + " =>\n " + rest() + "))"
+		}
+		return body
+	}
+	var pre []bind
+	switch cm := comm.Comm.(type) {
+	case *ast.SendStmt:
+		e, ok := chanElem(t.info.TypeOf(cm.Chan))
+		if !ok {
+			t.fail(cm, "send on a channel outside the subset (chan of integers, booleans or struct values)")
+			return rest()
+		}
+		ch := t.expr(cm.Chan, &pre)
+		v := t.exprAs(cm.Value, e, &pre)
+		if deflt == nil {
+			tmp := t.freshTmp()
+			var tb []bind
+			tb = append(tb, bind{pat: tmp, rhs: "(ch_send " + ch + " " + v + ")"})
+			t.assign(cm.Chan, tmp, &tb)
+			return wrapBinds(pre, finish(wrapBinds(tb, t.stmts(comm.Body, c, end))))
+		}
+		var tb []bind
+		t.assign(cm.Chan, "(ch_push "+ch+" "+v+")", &tb)
+		thenE := wrapBinds(tb, t.stmts(comm.Body, c, end))
+		elseE := t.stmts(deflt.Body, c, end)
+		return wrapBinds(pre, finish("(if (ch_room "+ch+")\n then "+thenE+"\n else "+elseE+")"))
+	case *ast.ExprStmt:
+		u, ok := cm.X.(*ast.UnaryExpr)
+		if !ok || u.Op != token.ARROW {
+			break
+		}
+		if _, ok := chanElem(t.info.TypeOf(u.X)); !ok || deflt == nil {
+			t.fail(cm, "receive case outside the subset (non-blocking receive with the value discarded)")
+			return rest()
+		}
+		ch := t.expr(u.X, &pre)
+		var tb []bind
+		t.assign(u.X, "(ch_pop "+ch+")", &tb)
+		thenE := wrapBinds(tb, t.stmts(comm.Body, c, end))
+		elseE := t.stmts(deflt.Body, c, end)
+		return wrapBinds(pre, finish("(if (ch_nonempty "+ch+")\n then "+thenE+"\n else "+elseE+")"))
+	}
+	t.fail(comm, "select case outside the subset")
+	return rest()
 }
